@@ -50,7 +50,8 @@ public:
 		limit_(mlimit),
 		file_size_(0),
 		read_offset_(0),
-		closed_(false)
+		closed_(false),
+		created_(false)
 	{
 		setp(0,0);
 		setg(0,0,0);
@@ -64,6 +65,13 @@ public:
 	bool in_memory()
 	{
 		return in_memory_;
+	}
+
+	// the file exists on the disk, it may be so even if in_memory() is true:
+	// when the first write to the newly created file has failed
+	bool created()
+	{
+		return created_;
 	}
 
 	void set_limit(size_t mlimit)
@@ -315,6 +323,7 @@ protected:
 			f_ = booster::nowide::fopen(name_.c_str(),"w+b");
 			if(!f_)
 				return -1;
+			created_ = true;
 		}
 		if(fseek(f_,0,SEEK_END) !=0)
 			return -1;
@@ -342,6 +351,7 @@ private:
 	std::string temp_dir_;
 	std::string name_;
 	bool closed_;
+	bool created_;
 };
 
 } // impl
